@@ -132,7 +132,7 @@ def step_model_input(cases_text, impl):
                     if k - 1 >= len(ops) or ops[k - 1][0][2]:
                         break  # implementation crashed or stopped: nothing to continue from
                     for rec in ops[k - 1]:
-                        if rec[0] in (2, 3, 5, 6):
+                        if rec[0] in (2, 3, 5, 6, 10):
                             out.append("120 " + " ".join(map(str, rec)))
                     out.append("121")
                 k += 1
@@ -260,7 +260,7 @@ class Run:
             tainted_from = None     # from here on the implementation state is known to differ (lasting damage, or history mode)
             n = min(len(i["ops"]), len(m["ops"]))
             for k in range(len(m["ops"])):
-                if m["ops"][k][0][3] & 10:
+                if m["ops"][k][0][3] & 26:
                     tainted_from = k
                     break
             for k in range(n):
@@ -278,11 +278,11 @@ class Run:
                 if trig and (is_span or trig & 4):
                     self.known_hits[trig] += 1
                     marked_ops.add(k)
-                    if tainted_from is None and (trig & 10):
+                    if tainted_from is None and (trig & 26):
                         tainted_from = k
                     if first_trig is None:
                         first_trig = k
-                    if step and not (trig & 10):
+                    if step and not (trig & 26):
                         continue
                     break   # history mode, or lasting damage (D12 / D13): the rest of the case is tainted
                 self.stats["ops_compared"] += 1
@@ -325,9 +325,10 @@ class Run:
                 lasting = tainted_from is not None and op >= tainted_from
                 if " panic" in text.split(":")[0] or " wedge" in text.split(":")[0]:
                     lasting = False    # a panic or a wedge is never excused by what a known finding does to the cells
-                elif name != "corpus" and is_span and "-m1" in cid and merge_pieces(case_lines(cases_text, cid)):
-                    # KF-grapheme-merge: grapheme mode, span buffer, input with marks / joiners / selectors / indicators that
-                    # can arrive apart from their base: the merged text no longer measures to the width its span claims
+                elif is_span and lasting and (m["ops"][tainted_from][0][3] & 16):
+                    # KF-grapheme-merge: grapheme mode, span buffer; the model marked this history: from operation
+                    # [tainted_from] on a row holds text that the span buffer, which derives the cells by segmenting the
+                    # stored text again, cannot represent as the cells it was written as
                     self.known_hits["KF-grapheme-merge"] += 1
                     continue
                 if is_span and lasting:
